@@ -4,6 +4,8 @@ package main
 // are evaluated while the run proceeds.
 
 import (
+	"strconv"
+	"reflect"
 	"encoding/hex"
 	"fmt"
 	"math"
@@ -54,7 +56,14 @@ type eqPair struct {
 	obj        unsafe.Pointer // a live copy, only for value types with pointers inside
 }
 
+// poolVal: a value of a library type that an earlier call of the task returned.
+type poolVal struct {
+	v     any
+	canon string // what it printed as when the task last touched it
+}
+
 type taskCtx struct {
+	pool map[string][]*poolVal
 	id      int
 	recs    []rec
 	vault   []vaultEntry
@@ -82,6 +91,8 @@ type probeCounts struct {
 	MutatingOnObj      int64 // mutating operations on one object (history length measure)
 	PoolOutstanding    int64 // pooled objects taken and not put back when the run was over (O5, informational)
 	AliasedArgs        int64 // arguments passed as substrings of library-returned strings
+	PoolValueArgs      int64 // calls of discovered API that were given values of library types returned by earlier calls
+	PoolValuesKept     int64 // such values kept
 	StackSets          int64 // Sets performed on a stack copy of the object, deep in the goroutine stack
 	GCBetweenOps       int64 // collections forced between two operations of a task (ephemeral arguments)
 	ObjArgs            int64 // calls of discovered API that were handed objects of the version's type
@@ -104,6 +115,8 @@ func (a *probeCounts) add(b *probeCounts) {
 	a.MutatingOnObj += b.MutatingOnObj
 	a.PoolOutstanding += b.PoolOutstanding
 	a.AliasedArgs += b.AliasedArgs
+	a.PoolValueArgs += b.PoolValueArgs
+	a.PoolValuesKept += b.PoolValuesKept
 	a.StackSets += b.StackSets
 	a.GCBetweenOps += b.GCBetweenOps
 	a.ObjArgs += b.ObjArgs
@@ -268,6 +281,7 @@ type opOut struct {
 	str          string // returned string (vector / get / nomen / rating)
 	rtEq, rtGets bool
 	rtVec        string
+	results      []any  // kExtra: what the call returned
 	aliasIn      string // a result changed when the caller reused an input buffer
 	f            float64
 }
@@ -277,7 +291,7 @@ type opOut struct {
 // live: the caller's objects for kExtra parameters of the object type (in
 // order); nil means "rebuild them from the values recorded in the arguments",
 // every one a distinct fresh object.
-func callOp(a verAPI, op Op, obj unsafe.Pointer, lastErr error, out *opOut, live []unsafe.Pointer) {
+func callOp(a verAPI, op Op, obj unsafe.Pointer, lastErr error, out *opOut, live []unsafe.Pointer, pv []any) {
 	defer func() {
 		if r := recover(); r != nil {
 			if rt.IsAbort(r) {
@@ -375,7 +389,14 @@ func callOp(a verAPI, op Op, obj unsafe.Pointer, lastErr error, out *opOut, live
 			}
 			objs = append(objs, p)
 		}
-		rs, inputs := fn.Call(obj, args, objs)
+		for _, k := range fn.Params {
+			if strings.HasPrefix(k, "pool:") && pv == nil {
+				out.res = "needs values of library types"
+				return
+			}
+		}
+		rs, inputs := fn.Call(obj, args, objs, pv)
+		out.results = rs
 		out.res = canonResults(rs, a)
 		if len(inputs) > 0 {
 			// the caller reuses its buffers: what it was handed must not change
@@ -395,6 +416,20 @@ func callOp(a verAPI, op Op, obj unsafe.Pointer, lastErr error, out *opOut, live
 			reorder(rs) // ... sorts it, say
 		}
 	}
+}
+
+// poolSorted: the task's kept values, by type name (a deterministic order).
+func (tc *taskCtx) poolSorted() [][]*poolVal {
+	var keys []string
+	for k := range tc.pool {
+		keys = append(keys, k)
+	}
+	sort.Strings(keys)
+	var out [][]*poolVal
+	for _, k := range keys {
+		out = append(out, tc.pool[k])
+	}
+	return out
 }
 
 func (x *runCtx) violate(tc *taskCtx, class string, opi int, format string, args ...any) {
@@ -620,7 +655,88 @@ func (x *runCtx) execOp(tc *taskCtx, opi int, op Op) {
 			}
 		}
 	}
-	callOp(a, op, obj, theErr, &out, live)
+	// values of library types for "pool:" / "vpool:" parameters
+	var pv []any
+	var pvUsed []*poolVal
+	if op.K == kExtra {
+		fn := findExtra(a.Ver(), op.S)
+		args := strings.Split(op.S2, "\x1f")
+		for len(args) < len(fn.Params) {
+			args = append(args, "")
+		}
+		poolish := false
+		for i, kind := range fn.Params {
+			var key string
+			var refs []string
+			switch {
+			case strings.HasPrefix(kind, "pool:"):
+				key, refs = kind[5:], []string{args[i]}
+			case strings.HasPrefix(kind, "vpool:"):
+				key = kind[6:]
+				if args[i] != "" {
+					refs = strings.Split(args[i], ",")
+				}
+			default:
+				continue
+			}
+			poolish = true
+			have := tc.pool[key]
+			for _, ref := range refs {
+				if len(have) == 0 {
+					if strings.HasPrefix(kind, "pool:") {
+						return // nothing of that type was returned to this task yet
+					}
+					continue
+				}
+				k, _ := strconv.Atoi(strings.TrimPrefix(ref, "p"))
+				pvUsed = append(pvUsed, have[len(have)-1-k%len(have)])
+			}
+		}
+		if poolish {
+			var canons []string
+			for _, e := range pvUsed {
+				now := canonValue(reflect.ValueOf(e.v), 0)
+				if now != e.canon && x.armed("C14") {
+					x.violate(tc, "value-changed-behind-caller", opi, "a value of type %T that the library returned to this task printed as %s when the task last touched it and prints as %s now: a call that was not given it changed it", e.v, trunc(e.canon), trunc(now))
+					e.canon = now
+				}
+				pv = append(pv, e.v)
+				canons = append(canons, now)
+			}
+			if pv == nil {
+				pv = []any{}
+			}
+			// the recorded arguments carry what the values looked like
+			op.S2 += "\x1fvalues:" + strings.Join(canons, ";")
+			r.op = op
+			tc.probes.PoolValueArgs++
+		}
+	}
+	callOp(a, op, obj, theErr, &out, live, pv)
+	if op.K == kExtra {
+		for _, e := range pvUsed {
+			e.canon = canonValue(reflect.ValueOf(e.v), 0) // the callee may have changed what it was given
+		}
+		for _, r0 := range out.results {
+			if r0 == nil {
+				continue
+			}
+			key := reflect.TypeOf(r0).String()
+			if !isPoolType(key) {
+				continue
+			}
+			if rv := reflect.ValueOf(r0); (rv.Kind() == reflect.Pointer || rv.Kind() == reflect.Func || rv.Kind() == reflect.Map || rv.Kind() == reflect.Slice) && rv.IsNil() {
+				continue
+			}
+			if tc.pool == nil {
+				tc.pool = map[string][]*poolVal{}
+			}
+			if len(tc.pool[key]) < 24 {
+				tc.pool[key] = append(tc.pool[key], &poolVal{v: r0, canon: canonValue(reflect.ValueOf(r0), 0)})
+				tc.probes.PoolValuesKept++
+			}
+		}
+	}
 	for k, i := range argCells {
 		// an unknown function may change an object it was given a pointer to
 		ac := x.cells[i]
@@ -673,7 +789,7 @@ func (x *runCtx) execOp(tc *taskCtx, opi int, op Op) {
 		r.calmable = true
 	case kExtra:
 		r.key = fmt.Sprintf("%d|extra|%s|%s|%s|%d", a.Ver(), op.S, hexs(before), op.S2, op.D)
-		r.calmable = a.PtrFree()
+		r.calmable = a.PtrFree() && pv == nil
 	default:
 		r.key = fmt.Sprintf("%d|%s|%s|%s|%s", a.Ver(), op.K, hexs(before), op.S, op.S2)
 		r.calmable = a.PtrFree() // a value with pointers inside cannot be rebuilt from its bytes
@@ -1120,6 +1236,14 @@ func runPlan(p *Plan, trace bool, collectCover bool) *runResult {
 				rt.SchedPoint('o', oi)
 				sim.Note("op", tc.id, oi)
 				x.execOp(tc, oi, op)
+			}
+			// what the library handed to this task must still look as it did
+			for _, list := range tc.poolSorted() {
+				for _, e := range list {
+					if now := canonValue(reflect.ValueOf(e.v), 0); now != e.canon && x.armed("C14") {
+						x.violate(tc, "value-changed-behind-caller", len(ops)-1, "a value of type %T that the library returned to this task printed as %s when the task last touched it and prints as %s at the end: a call that was not given it changed it", e.v, trunc(e.canon), trunc(now))
+					}
+				}
 			}
 		})
 	}
